@@ -28,13 +28,13 @@ ASSUMPTIONS = ["the unknown's variables are mapped to objects by the documented 
                "dropped: state first coefficient, povm last element, gate first HS row, mprocess first row of the last HS)",
                "tester objects are the named finite pools; bases are the normalised Pauli / Gell-Mann bases",
                "the circuit route (generate_prob_dists_sequence) is compared on the full physical affine basis only for the "
-               "'all' list; other lists use 3 physical points (each schedule's circuit is covered by 'all')",
+               "'all' list; other lists use one generic physical point (each schedule's circuit is covered by 'all')",
                "objects handed to calc_prob_dists carry the same on_para_eq_constraint flag as the tomography"]
 BOUNDS = {"quick": "Q1, Q3; povmt m=2..4, qmpt m=2..4 on Q1, m=2..3 (m=4 on one tester set) on Q3; sub-lists: all sizes when "
                    "<= 6 schedules, else sizes <= k with at most 700 sub-lists (k>=1); deletions of 1 schedule, of 2 when <= 350 lists",
           "thorough": "adds Q2 (qmpt m=2, m=3..4 on two tester sets), Q3 qmpt m=4 everywhere; sub-list cap 4000"}
 EXHAUSTIVE = {"quick": True, "thorough": True}
-CASE_TIMEOUT = 900
+CASE_TIMEOUT = 3600
 CHUNK = 1
 
 
@@ -240,7 +240,8 @@ def check_list(out, seen, cx, name, idx, digs):
 
     # ---------------- (b) model vs circuit on a physical affine basis of the feasible set
     phys = cx.phys_points()
-    pts = range(len(phys)) if name == "all" else (0, 1, len(phys) - 1)
+    # 'all': the full physical affine basis; other lists: the generic displaced point (wiring / order of the list)
+    pts = range(len(phys)) if name == "all" else (len(phys) - 1,)
     for k in pts:
         x = phys[k]
         born = cx.born_all(x, sorted(set(pairs)))
